@@ -12,6 +12,7 @@
 -/
 import SCoda.Lemmas.TokTieL5
 import SCoda.Lemmas.TokTieChan
+import SCoda.Lemmas.TokLib2L
 namespace SCoda.TokTie
 open SCoda SCoda.TokLib SCoda.Gen.Tok SCoda.TokTieL SCoda.RenderL
 
@@ -55,8 +56,9 @@ theorem dictionarySize_eq (o o' : TokObj) (h0 : o.dictionarySize_ = 0) (h : cons
   rw [pushAll_size, h0]
   simp [SCoda.dictionarySize]
 
-/-- The translated constructor: the state of the object (`initObj`: defaults filled in, step sizes and note values sorted,
-    bins from the linked `get_velocity_bins`) and the vocabulary `vocabSeq` of its hand-model configuration, rendered. -/
+/-- The translated constructor: the state of the object (`initObj`: defaults filled in, step sizes and note values sorted
+    WITHOUT DUPLICATES — `sorted(set(…))`, the repair of finding D31 — bins from the linked `get_velocity_bins`) and the
+    vocabulary `vocabSeq` of its hand-model configuration, rendered. -/
 theorem tokInit_eq' (ppqn : Option Int) (numTracks : Int) (pitchRange : Int × Int) (stepSizes noteValues : Option (List Int))
     (vb : Int) (tsRange : Int × Int) (running fuseTrk fuseVal fuseVel simplify : Bool) :
     tokInit ppqn numTracks pitchRange stepSizes noteValues vb tsRange running fuseTrk fuseVal fuseVel simplify =
@@ -66,6 +68,75 @@ theorem tokInit_eq' (ppqn : Option Int) (numTracks : Int) (pitchRange : Int × I
         let o := initObj ppqn numTracks pitchRange stepSizes noteValues bins tsRange running fuseTrk fuseVal fuseVel simplify
         .ok (finish (pushAll o ((vocabSeq (cfgOf o)).map render))) :=
   tokInit_eq ppqn numTracks pitchRange stepSizes noteValues vb tsRange running fuseTrk fuseVal fuseVel simplify
+
+/-- what `__init__` returns, read off `tokInit_eq'`: the bins of the linked `get_velocity_bins`, and the hand-model configuration
+    of the returned object is that of `initObj` (`_construct_dictionary` only touches the dictionaries and the size) -/
+theorem tokInit_cfg (ppqn : Option Int) (numTracks : Int) (pitchRange : Int × Int) (stepSizes noteValues : Option (List Int))
+    (vb : Int) (tsRange : Int × Int) (running fuseTrk fuseVal fuseVel simplify : Bool) (o : TokObj)
+    (h : tokInit ppqn numTracks pitchRange stepSizes noteValues vb tsRange running fuseTrk fuseVal fuseVel simplify = .ok o) :
+    ∃ bins, linkVelocityBins vb = .ok bins ∧
+      cfgOf o = cfgOf (initObj ppqn numTracks pitchRange stepSizes noteValues bins tsRange running fuseTrk fuseVal fuseVel simplify) := by
+  rw [tokInit_eq'] at h
+  cases hb : linkVelocityBins vb with
+  | error e => rw [hb] at h; cases h
+  | ok bins =>
+    rw [hb] at h
+    cases h
+    exact ⟨bins, rfl, cfgOf_pushAll _ _⟩
+
+/-- THE REPAIR OF D31.  Every tokeniser object that `__init__` builds — whatever lists the caller passes, repeated entries
+    included, or the defaults — has duplicate-free step sizes and note values: the hypotheses `steps_nodup` / `values_nodup` of
+    `C02.CfgWF` hold for every constructible tokeniser, they are no longer a condition on the caller's arguments. -/
+theorem tokInit_nodup (ppqn : Option Int) (numTracks : Int) (pitchRange : Int × Int) (stepSizes noteValues : Option (List Int))
+    (vb : Int) (tsRange : Int × Int) (running fuseTrk fuseVal fuseVel simplify : Bool) (o : TokObj)
+    (h : tokInit ppqn numTracks pitchRange stepSizes noteValues vb tsRange running fuseTrk fuseVal fuseVel simplify = .ok o) :
+    (cfgOf o).steps.Nodup ∧ (cfgOf o).values.Nodup := by
+  obtain ⟨bins, _, hc⟩ := tokInit_cfg _ _ _ _ _ _ _ _ _ _ _ _ o h
+  rw [hc]
+  exact ⟨TokLib2L.sorted_set_nodup _, TokLib2L.sorted_set_nodup _⟩
+
+/-- What the constructed object stores, specified without the two built-ins: the step sizes (note values) are strictly
+    ascending and are exactly the entries of the list passed (of the default list when `None` is passed).  These two facts
+    determine the stored list (`TokLib2L.strict_ext`). -/
+theorem tokInit_sorted (ppqn : Option Int) (numTracks : Int) (pitchRange : Int × Int) (stepSizes noteValues : Option (List Int))
+    (vb : Int) (tsRange : Int × Int) (running fuseTrk fuseVal fuseVel simplify : Bool) (o : TokObj)
+    (h : tokInit ppqn numTracks pitchRange stepSizes noteValues vb tsRange running fuseTrk fuseVal fuseVel simplify = .ok o) :
+    ((cfgOf o).steps.Pairwise (· < ·) ∧ ∀ a, a ∈ (cfgOf o).steps ↔ a ∈ stepSizes.getD Gen.defaultStepSizesShift1) ∧
+    ((cfgOf o).values.Pairwise (· < ·) ∧ ∀ a, a ∈ (cfgOf o).values ↔ a ∈ noteValues.getD Gen.defaultNoteValues) := by
+  obtain ⟨bins, _, hc⟩ := tokInit_cfg _ _ _ _ _ _ _ _ _ _ _ _ o h
+  rw [hc]
+  exact ⟨⟨TokLib2L.sorted_set_strict _, TokLib2L.mem_sorted_set _⟩, ⟨TokLib2L.sorted_set_strict _, TokLib2L.mem_sorted_set _⟩⟩
+
+/-- `C02.CfgWF` for a constructed tokeniser: what is left of it as a condition is that `get_velocity_bins` returned distinct
+    bins (finding D16b: for some bin counts it repeats 127; that is a defect of `get_velocity_bins`, not of the caller's lists). -/
+theorem tokInit_cfgWF (ppqn : Option Int) (numTracks : Int) (pitchRange : Int × Int) (stepSizes noteValues : Option (List Int))
+    (vb : Int) (tsRange : Int × Int) (running fuseTrk fuseVal fuseVel simplify : Bool) (o : TokObj)
+    (h : tokInit ppqn numTracks pitchRange stepSizes noteValues vb tsRange running fuseTrk fuseVal fuseVel simplify = .ok o)
+    (hb : o.velocityBins.Nodup) : C02.CfgWF (cfgOf o) :=
+  have hn := tokInit_nodup _ _ _ _ _ _ _ _ _ _ _ _ o h
+  { steps_nodup := hn.1, values_nodup := hn.2, bins_nodup := hb, def_eq := (rfl : Gen.defaultTimeSignatureNumerator = Gen.defaultTimeSignatureDenominator) }
+
+/-- a caller who passes duplicate-free lists gets what the constructor stored before the repair (`l.sort()`) -/
+theorem initObj_of_nodup (ppqn : Option Int) (numTracks : Int) (pitchRange : Int × Int) (steps values : List Int)
+    (bins : List Int) (tsRange : Int × Int) (running fuseTrk fuseVal fuseVel simplify : Bool)
+    (hs : steps.Nodup) (hv : values.Nodup) :
+    (initObj ppqn numTracks pitchRange (some steps) (some values) bins tsRange running fuseTrk fuseVal fuseVel simplify).stepSizes
+      = pySortInt steps ∧
+    (initObj ppqn numTracks pitchRange (some steps) (some values) bins tsRange running fuseTrk fuseVal fuseVel simplify).noteValues
+      = pySortInt values :=
+  ⟨TokLib2L.sorted_set_of_nodup steps hs, TokLib2L.sorted_set_of_nodup values hv⟩
+
+/-- non-vacuity, on the recorded inputs of finding D31 (`step_sizes=[4, 4, 8]`, `note_values=[12, 12, 24]`, pitches 60..62): the
+    translated `__init__` succeeds, stores `[4, 8]` / `[12, 24]`, the configuration is `CfgWF`, and `dictionary_size` is the number
+    of keys (before the repair: 29 ids handed out for 22 keys) -/
+example : ∃ o, tokInit none 1 (60, 62) (some [4, 4, 8]) (some [12, 12, 24]) 1 (2, 16) true true true true true = .ok o ∧
+    o.stepSizes = [4, 8] ∧ o.noteValues = [12, 24] ∧ C02.CfgWF (cfgOf o) ∧
+    o.dictionarySize_ = o.dictionary.length ∧ o.dictionary.length = o.inverseDictionary.length := by
+  have hb : linkVelocityBins 1 = .ok [127] := by decide
+  have h := tokInit_eq' none 1 (60, 62) (some [4, 4, 8]) (some [12, 12, 24]) 1 (2, 16) true true true true true
+  rw [hb] at h
+  refine ⟨_, h, ?_⟩
+  refine ⟨by decide, by decide, ⟨by decide, by decide, by decide, by decide⟩, by decide, by decide⟩
 
 /-- non-vacuity: the hypotheses hold for the object `__init__` builds, e.g. with all defaults and one velocity bin -/
 example : (initObj none 1 (21, 108) none none [127] (2, 16) true true true true true).dictionarySize_ = 0 ∧
